@@ -275,6 +275,14 @@ func (s *Spec) isInterval() bool {
 
 func (s *Spec) realiseArr() any {
 	switch s.R {
+	case "nilslice":
+		if len(s.E) == 0 {
+			return []string(nil) // a nil typed slice: an empty array as far as Liquid is concerned
+		}
+	case "emptystrings":
+		if len(s.E) == 0 {
+			return []string{}
+		}
 	case "typed":
 		switch s.elemKinds() {
 		case "int":
